@@ -118,6 +118,104 @@ def sanity_counter_unit(res):
     return res
 
 
+def sanity_report_unit(res):
+    """P: _get_sanity_report and sanity_check (real code).  (1) for lists of ANY length and any total > 0 the summary names, in
+    the sentence about throughput / latency / port pressure, the length of the list of forms lacking that value together with the
+    total (the sentences are recognised by these words; other wording -> contract not applicable); (2) sanity_check hands the
+    lists it got from _check_sanity_arch_db (whose contract is the counter unit) to the report in exactly that role, the total is
+    the number of instruction forms of the model, the report is printed to the output stream (the function's boolean result is not part of the property)."""
+    ex = Engine([REPO + "/" + DBI])
+    names = ("m_tp", "m_l", "m_pp", "suspic", "dup_arch", "dup_isa", "only_isa", "bad")
+    L = {n: z3.Int("len_" + n) for n in names}
+    total = z3.Int("total")
+    for verbose in (False, True):
+        def run(verbose=verbose):
+            ex.abstract["_get_sanity_report_verbose"] = lambda ex_, so, a, kw: OpaqueStr("verbose part")
+            lists = [SymSeq(L[n], lambda i: "entry") for n in names]
+            return ex.call_function("_get_sanity_report", [SNum(total, True)] + lists, kw=dict(verbose=verbose))
+
+        paths = ex.explore(run, [total > 0] + [L[n] >= 0 for n in names])
+
+        def post(v, p):
+            pieces = [x for x in getattr(v, "parts", []) if isinstance(getattr(x, "template", None), str)]
+            if not pieces:
+                raise Unsupported("report is not assembled from formatted pieces: contract not applicable")
+            g = []
+            for word, n in (("throughput", "m_tp"), ("latency", "m_l"), ("port pressure", "m_pp")):
+                hit = [x for x in pieces if word in x.template]
+                if len(hit) != 1:
+                    raise Unsupported(f"no unique sentence about {word}: contract not applicable")
+                ints = [num_term(a)[0] for a in hit[0].args if is_num(a) and num_term(a)[1]]
+                g.append(z3.Or([t == L[n] for t in ints]) if ints else z3.BoolVal(False))
+                g.append(z3.Or([t == total for t in ints]) if ints else z3.BoolVal(False))
+            return z3.And(g)
+
+        res.add_paths(paths, post, kind=f"_get_sanity_report/verbose={int(verbose)}")
+
+    # wiring of sanity_check
+    n_forms = z3.Int("n_forms")
+    for pp_empty in (True, False):
+        for bad_empty in (True, False):
+            def run2(pp_empty=pp_empty, bad_empty=bad_empty):
+                log = []
+                G = {n: ([] if (n == "m_pp" and pp_empty) or (n == "bad" and bad_empty) else [n]) for n in names}
+                data = SymSeq(n_forms, lambda i: "form")
+
+                class MM:
+                    def __init__(self, arch):
+                        self.arch = arch
+
+                    def sym_getitem(self, ex_, k):
+                        if k == "instruction_forms":
+                            return data
+                        raise Unsupported("model key " + str(k))
+
+                    def sym_method(self, ex_, name, a, kw):
+                        if name == "get_ISA":
+                            return "x86"
+                        raise Unsupported("model method " + name)
+
+                def mk(*a, **kw):
+                    m = MM(kw.get("arch", a[0] if a else None))
+                    log.append(("model", m))
+                    return m
+
+                ex.names["MachineModel"] = mk
+                ex.abstract["_check_sanity_arch_db"] = lambda ex_, so, a, kw: (G["m_tp"], G["m_l"], G["m_pp"], G["suspic"], G["dup_arch"], G["bad"])
+                ex.abstract["_check_sanity_isa_db"] = lambda ex_, so, a, kw: (G["dup_isa"], G["only_isa"])
+
+                def report(ex_, so, a, kw):
+                    log.append(("report", list(a), dict(kw)))
+                    return "THE REPORT"
+
+                ex.abstract["_get_sanity_report"] = report
+                ex.eval_print_args = True
+                ex.abstract["print"] = lambda ex_, so, a, kw: log.append(("print", list(a), dict(kw)))
+                out = SObj("Stream")
+                ex.extra.update(log=log, G=G, out=out)
+                return ex.call_function("sanity_check", ["zen1"], kw=dict(output_file=out))
+
+            paths = ex.explore(run2, [n_forms >= 0])
+
+            def post2(v, p, pp_empty=pp_empty, bad_empty=bad_empty):
+                log, G = p.extra["log"], p.extra["G"]
+                rep = [e for e in log if e[0] == "report"]
+                if len(rep) != 1:
+                    return False
+                a, kw = rep[0][1], rep[0][2]
+                allargs = dict(zip(("total", "m_tp", "m_l", "m_pp", "suspic_instr", "dup_arch", "dup_isa", "only_isa", "bad_operands"), a))
+                allargs.update(kw)
+                want = dict(m_tp="m_tp", m_l="m_l", m_pp="m_pp", suspic_instr="suspic", dup_arch="dup_arch", dup_isa="dup_isa", only_isa="only_isa", bad_operands="bad")
+                if any(allargs.get(k) is not G[n] for k, n in want.items()) or not is_num(allargs.get("total")):
+                    return False
+                printed = [e for e in log if e[0] == "print"]
+                ok = (len(printed) == 1 and printed[0][1] == ["THE REPORT"] and printed[0][2].get("file") is p.extra["out"]) if printed else True
+                return z3.And(num_term(allargs["total"])[0] == n_forms, z3.BoolVal(bool(ok)))
+
+            res.add_paths(paths, post2, kind=f"sanity_check/wiring/pp_empty={int(pp_empty)}/bad_empty={int(bad_empty)}")
+    return res
+
+
 def units(tier):
     from .c01 import avg_unit, avg_pb_unit, handle_found_unit
     AS = "osaca/semantics/arch_semantics.py"
@@ -127,5 +225,6 @@ def units(tier):
         Unit("C15/average_port_pressure/exception-freedom-under-wf", avg_unit, "P", [(HW, "MachineModel.average_port_pressure")]),
         Unit("C15/average_port_pressure/Pb-floor", avg_pb_unit, "Pb", [(HW, "MachineModel.average_port_pressure")]),
         Unit("C15/_handle_instruction_found", handle_found_unit, "P", [(AS, "ArchSemantics._handle_instruction_found")]),
+        Unit("C15/_get_sanity_report+sanity_check(counts shown = list lengths)", sanity_report_unit, "P", [(DBI, "_get_sanity_report"), (DBI, "sanity_check")]),
         Unit("C15/_check_sanity_arch_db/counters", sanity_counter_unit, "P", [(DBI, "_check_sanity_arch_db")]),
     ]
